@@ -265,16 +265,26 @@ def rules(ctx):
             ctx.inst('R01.4', fn, n, ok,
                      "table records (%s, %s) -> %s" % (x, y, z) if ok else
                      "reduction table entry %s does not record the gadget's pair/ancilla" % src(n))
-        # key rebuild
+        # key rebuild: the for loop directly in the while body that re-adds labels to K
         rebuild = None
-        for n in ast.walk(W):
-            if isinstance(n, ast.For) and any(x_ is n for x_ in W.body) or (
-                    isinstance(n, ast.For) and parent(n) is W):
-                body_src = src(n)
-                if '(%s, %s)' % (x, y) in body_src and K and (K + ' +=') in body_src:
-                    rebuild = n
+        for n in W.body:
+            if isinstance(n, ast.For) and K and any(
+                    isinstance(m, ast.AugAssign) and src(m.target) == K for m in ast.walk(n)):
+                rebuild = n
         if rebuild is None:
             raise AnalysisError("_reduce_degree: key rebuild loop not recognised (for i in old_key ... key += ...)")
+        # the pair removed by the rebuild is read from its membership test
+        rp = None
+        for m in ast.walk(rebuild):
+            if isinstance(m, ast.Compare) and len(m.ops) == 1 and isinstance(m.ops[0], (ast.In, ast.NotIn)) \
+                    and src(m.left) == src(rebuild.target) and isinstance(m.comparators[0], (ast.Tuple, ast.Set, ast.List)):
+                rp = [src(e) for e in m.comparators[0].elts]
+        okpair = rp is not None and sorted(rp) == sorted([x, y])
+        ctx.inst('R01.4', fn, rebuild, okpair,
+                 "rebuild removes exactly the gadget's pair (%s, %s)" % (x, y) if okpair else
+                 "key rebuild removes %s but the gadget constrains the ancilla to the pair (%s, %s)" % (rp, x, y))
+        if rp is not None and len(rp) == 2:
+            x, y = rp
         it = src(rebuild.target)
         # old key variable must be the loop key before reset
         gb = g
